@@ -22,11 +22,11 @@ func (d Dict) render(f *File, w io.Writer, s *Statement) error {
 	first := true
 	// must order keys to ensure repeatable source
 	type kv struct {
-		k Code
-		v Code
+		k    Code
+		v    Code
+		text string // the rendered key
 	}
-	lookup := map[string]kv{}
-	keys := []string{}
+	keys := []kv{}
 	for k, v := range d {
 		if k.isNull(f) || v.isNull(f) {
 			continue
@@ -35,13 +35,13 @@ func (d Dict) render(f *File, w io.Writer, s *Statement) error {
 		if err := k.render(f, buf, nil); err != nil {
 			return err
 		}
-		keys = append(keys, buf.String())
-		lookup[buf.String()] = kv{k: k, v: v}
+		// several keys may render identically, so pairs can't be indexed by the rendered key
+		keys = append(keys, kv{k: k, v: v, text: buf.String()})
 	}
-	sort.Strings(keys)
+	sort.SliceStable(keys, func(i, j int) bool { return keys[i].text < keys[j].text })
 	for _, key := range keys {
-		k := lookup[key].k
-		v := lookup[key].v
+		k := key.k
+		v := key.v
 		if first && len(keys) > 1 {
 			if _, err := w.Write([]byte("\n")); err != nil {
 				return err
